@@ -6,7 +6,7 @@ Import ListNotations.
 From K Require Import Proofs.TwoByte.
 From K Require Import Model.Cost Model.Addressing Proofs.MemProofs Proofs.StepProofs Proofs.StepRefines Proofs.StepRefinesCtl Proofs.StepRefines2.
 From K Require Import Proofs.FourByte Proofs.StepRefines4.
-From K Require Import Model.Bus Spec.MemMap Spec.Price Spec.Domains Proofs.PriceProofs Proofs.RegProofs Proofs.ChargeTotals Proofs.RefStep Proofs.FrameRest Proofs.Preserve.
+From K Require Import Model.Bus Spec.MemMap Spec.Price Spec.Domains Proofs.PriceProofs Proofs.RegProofs Proofs.ChargeTotals Proofs.RefStep Proofs.FrameRest Proofs.Preserve Proofs.ExampleState.
 From K Require Import Model.Ops.
 From Coq Require Import Lia ZifyBool.
 Open Scope Z_scope.
@@ -167,32 +167,13 @@ Theorem any_number_of_steps_is_the_reference_execution :
 Proof. exact steps_are_ref_steps. Qed.
 
 (* the hypotheses are satisfiable: MOV.B R0H,R1H (0C 01) at H'FFC000 in on-chip RAM *)
-Definition c07_ex_state : cpu :=
-  mkCpu 0xffc000 0 0 regs0
-        (mkBus (snew (fun _ => 0)) (snew (fun _ => 0)) (snew (fun _ => 0))
-               (sset (sset (snew (fun _ => 0)) (0xffc000 - RAM_START) 0x0c) (0xffc001 - RAM_START) 0x01)
-               (snew (fun _ => 0)) (snew (fun _ => 0)) (snew (fun _ => 0)) 0 nil timer0)
-        nil 0 0 false false nil false.
-
-Lemma sget_snew0 i : sget (snew (fun _ => 0)) i = 0.
-Proof. Transparent sget. unfold sget, snew. cbn [sov sdflt]. rewrite FMapPositive.PositiveMap.gempty. reflexivity. Opaque sget. Qed.
+Definition c07_ex_state : cpu := ex_state 0.
 
 Example c07_step_example :
   state_ok c07_ex_state /\ ref_decode c07_ex_state = Some (IMovRR SB 0 1, 2) /\ side_ok (IMovRR SB 0 1) c07_ex_state /\
   dom_c20 (IMovRR SB 0 1) 2 c07_ex_state = true /\ exists s', sem_ref (IMovRR SB 0 1) 2 c07_ex_state = Some s'.
 Proof.
-  split; [|split; [vm_compute; reflexivity|split; [exact I|split; [vm_compute; reflexivity|eexists; reflexivity]]]].
-  unfold state_ok, cpu_ok. split; [split|split; [|split]].
-  - intros k. unfold word32, c07_ex_state, regs0, get_er. cbn [er r0 r1 r2 r3 r4 r5 r6 r7].
-    repeat match goal with |- context [if ?c then _ else _] => destruct c end; lia.
-  - cbn. lia.
-  - intros a v. unfold bus_read, c07_ex_state. cbn [cbus b_vec b_io1 b_dram b_ram b_io2].
-    unfold inr, VEC_START, VEC_END, IO1_START, IO1_END, DRAM_START, DRAM_END, RAM_START, RAM_END, IO2_START, IO2_END.
-    repeat match goal with |- context [if ?c then _ else _] => destruct c eqn:? end; intros H; inversion H; subst; clear H;
-      rewrite ?sget_sset by lia; rewrite ?sget_snew0;
-      repeat match goal with |- context [if ?c then _ else _] => destruct c end; lia.
-  - intros a Ha. unfold reg, c07_ex_state. cbn [cbus b_io1]. rewrite sget_snew0. lia.
-  - reflexivity.
+  split; [apply ex_state_ok|split; [vm_compute; reflexivity|split; [exact I|split; [vm_compute; reflexivity|eexists; reflexivity]]]].
 Qed.
 
 Example c07_exec_example : exists c s2, ref_exec 1 c07_ex_state = Some (c, s2).
